@@ -194,7 +194,7 @@ Example C20_nonvacuous_other :
       /\ map (fun e => (Backup.get "poll_interval" e, Backup.get "listen_enabled" e))
              (sl_devices (fst (put_slave_devices ex_reach [remove_key "listen_enabled" (ex_live "relay" "relay.local" 0 JNull); remove_key "listen_enabled" (ex_live "plain" "plain.local" 0 JNull)]
                                                  {| sl_devices := []; sl_updating := true; sl_events := true |})))
-         = [(JNum 0, JBool true); (JNum 40, JNull)])
+         = [(JNum 0, JBool true); (JNum 40, JBool false)])
   /\ (let known := String.eqb "mock.Driver" in
       let dyn := [ex_periph "pa"; ex_periph "pb"] in
       forallb (driver_known known) dyn = true /\ ids_distinct dyn = true
